@@ -228,7 +228,7 @@ def prove(prop, extra_targets=()):
 
 
 # ---------------------------------------------------------------- OCaml driver
-def ocaml_build(prop):
+def ocaml_build(prop, use_zutil=True):
     """compile the extracted model + driver for a property; returns the driver path"""
     p = prop.lower()
     with Lock("ocaml"):
@@ -238,8 +238,8 @@ def ocaml_build(prop):
         open(os.path.join(ML, "zutil_%s.ml" % p), "w").write(zu)
         import shutil
         shutil.copy(src_main, os.path.join(ML, "%s_main.ml" % p))
-        cmd = ["ocamlfind", "ocamlopt", "-O2", "-w", "-a", "%s_model.mli" % p, "%s_model.ml" % p,
-               "zutil_%s.ml" % p, "%s_main.ml" % p, "-o", "%s_driver" % p]
+        cmd = ["ocamlfind", "ocamlopt", "-O2", "-w", "-a", "%s_model.mli" % p, "%s_model.ml" % p] + \
+              (["zutil_%s.ml" % p] if use_zutil else []) + ["%s_main.ml" % p, "-o", "%s_driver" % p]
         rc, out = run(cmd, cwd=ML, timeout=600)
     if rc != 0:
         raise CheckError("ocaml build failed for %s:\n%s" % (prop, out[-3000:]))
